@@ -74,6 +74,9 @@ Proof. intros. rewrite <- (round_0 radix2 fexp ZnearestE). apply round_le; auto 
 Lemma rnd_le0 x : x <= 0 -> rnd x <= 0.
 Proof. intros. rewrite <- (round_0 radix2 fexp ZnearestE). apply round_le; auto with typeclass_instances. Qed.
 
+Lemma rnd_ge0_mode x : 0 <= x -> 0 <= round radix2 (SpecFloat.fexp prec emax) (round_mode mode_NE) x.
+Proof. exact (rnd_ge0 x). Qed.
+
 (* constants *)
 Lemma fin_Q : fin Q. Proof. reflexivity. Qed.
 Lemma fin_PI : fin PI. Proof. reflexivity. Qed.
